@@ -208,7 +208,8 @@ type SeqSpec struct{ Table, PK string }
 // Plan parses sql the way the session does, builds the plan with session database
 // sessionDB and returns what the plan sends to the backends. Write plans are observed
 // through Plan.ExecuteIn with a recording executor (the map the real executor would
-// receive); SELECT plans through SelectPlan.GetSQLs (ExecuteIn would go on to merge rows).
+// receive); SELECT plans through SelectPlan.GetSQLs and UNION plans through the GetSQLs of
+// their sub-plans (ExecuteIn would go on to merge result sets).
 func (e *Env) Plan(sessionDB, sql string, seqs ...SeqSpec) (out Outcome) {
 	stmt, err := e.Parse(sql)
 	if err != nil {
@@ -235,6 +236,18 @@ func (e *Env) Plan(sessionDB, sql string, seqs ...SeqSpec) (out Outcome) {
 	out.Kind = strings.TrimPrefix(fmt.Sprintf("%T", p), "*plan.")
 	if sp, ok := p.(*plan.SelectPlan); ok {
 		out.Sent = Flatten(sp.GetSQLs())
+		return
+	}
+	if up, ok := p.(*plan.UnionPlan); ok {
+		for _, sub := range plan.VerifUnionSubPlans(up) {
+			sp, ok := sub.(*plan.SelectPlan)
+			if !ok {
+				out.Err = fmt.Sprintf("union sub-plan %T is not observable", sub)
+				out.Sent = nil
+				return
+			}
+			out.Sent = append(out.Sent, Flatten(sp.GetSQLs())...)
+		}
 		return
 	}
 	rec := &recorder{}
